@@ -549,3 +549,17 @@ pub fn c34_counter<'a>(r: Stream<u32, P<'a>>, w: Stream<u32, P<'a>>) {
         .assume_ordering::<hydro_lang::live_collections::stream::TotalOrder>(nondet!(/** recorded per tick, compared as a multiset */))
         .embedded_output("read");
 }
+
+/// unkeyed variant: the region's state is a Singleton (sum of all writes), reads take an atomic
+/// snapshot of it through `use::atomic` and are answered (read, sum)
+pub fn c34_sum<'a>(r: Stream<u32, P<'a>>, w: Stream<u32, P<'a>>) {
+    let aw = w.atomic();
+    let total = aw.clone().fold(q!(|| 0u32), q!(|acc, x| *acc += x));
+    aw.end_atomic().embedded_output("ack");
+    let out = sliced! {
+        let rb = use::batch(r, nondet!(/** batch boundaries are not observed */));
+        let snap = use::atomic(total, nondet!(/** atomic snapshot */));
+        rb.cross_singleton(snap)
+    };
+    out.embedded_output("read");
+}
